@@ -123,7 +123,7 @@ def run_case(case):
         # workload steering only (not an oracle): a filtered function signal cannot be evaluated on one sample
         has_filter = isinstance(a, FunctionSignal) and any(len(g) for g in a._filters)
         n2 = int(rng.integers(2 if has_filter else 1, 30))
-        mode = rng.integers(0, 5)
+        mode = rng.integers(0, 8)
         a0, a1 = a.times[0], a.times[-1]
         span = max(a1 - a0, dt)
         if mode == 0:      # sub-window on the grid
@@ -135,9 +135,20 @@ def run_case(case):
             g = a1 + span * rng.uniform(1, 3) + np.arange(n2) * dt
         elif mode == 3:    # off-grid, different step
             g = a0 + rng.uniform(-1, 1) * span + np.arange(n2) * dt * rng.choice([0.5, 0.37, 2.0])
-        else:              # identical grid
+        elif mode == 4:    # identical grid
             g = a.times.copy()
-        if has_filter and len(g) < 2:
+        elif mode == 5:    # same length and end points, different interior samples (irregular grid)
+            g = np.array(a.times, float)
+            if len(g) > 2:
+                inner = np.sort(rng.uniform(g[0], g[-1], size=len(g) - 2))
+                keep = rng.random(len(inner)) < 0.4
+                g[1:-1] = np.where(keep, g[1:-1], inner)
+                g = np.sort(g)
+        elif mode == 6:    # irregular grid over a wider span
+            g = np.sort(rng.uniform(a0 - 0.5 * span, a1 + 0.5 * span, size=n2 + 1))
+        else:              # same start and length, different step
+            g = a0 + np.arange(len(a.times)) * dt * float(rng.choice([0.5, 2.0, 3.0]))
+        if has_filter and (len(g) < 2 or mode in (5, 6)):
             g = a.times.copy()
         return np.array(g, float)
 
